@@ -907,6 +907,11 @@ func serveError(c context.Context, ctx *app.RequestContext, code int, defaultMes
 		if ctx.Response.HasBodyBytes() || ctx.Response.IsBodyStream() {
 			return
 		}
+		// a body that went out through a hijacked writer is on the wire already: SetBody would
+		// append the default text to it
+		if w, ok := ctx.Response.GetHijackWriter().(interface{ WroteHeader() bool }); ok && w.WroteHeader() {
+			return
+		}
 		ctx.Response.Header.Set("Content-Type", "text/plain")
 		ctx.Response.SetBody(defaultMessage)
 	}
